@@ -693,6 +693,9 @@ class WireWorld:
         self.conns = []
         self._fac = {}
         self.summary = hashlib.sha256()
+        self.acc_steps, self.acc_vtime = 0, 0.0
+        self.acc_kinds, self.acc_counts = collections.Counter(), collections.Counter()
+        self.flows = []
 
     # -- reporting ---------------------------------------------------------
     def violate(self, rule, sig, msg, prop='C14'):
@@ -701,12 +704,12 @@ class WireWorld:
         if self.vcount[key] > 1:
             return
         self.violations.append(dict(property=prop, rule=rule, signature=sig, message=msg,
-                                    step=self.sim.steps + self.feeds, t=round(self.sim.now, 3)))
+                                    step=self.acc_steps + self.sim.steps + self.feeds, t=round(self.sim.now, 3)))
         self.op(f'VIOLATION {prop}/{rule} {sig}: {msg}')
 
     def op(self, text):
         if len(self.ops) < 400:
-            self.ops.append(f'[{self.sim.steps + self.feeds}@{self.sim.now:.2f}] {text}')
+            self.ops.append(f'[{self.acc_steps + self.sim.steps + self.feeds}@{self.sim.now:.2f}] {text}')
 
     def note(self, *parts):
         """fold harness-level outcomes into the event-log digest"""
@@ -1042,7 +1045,6 @@ class WireWorld:
             pairs = list(itertools.combinations(pool, 2))
             self.probes['long_stream_window_pairs'] += 1
             self.op(f'stream longer than {SHORT}B: all {N - 1} single cuts, pairs among window {lo}..{lo + W - 1} and frame edges ({len(pool)} positions)')
-        hs = b''.join(pre)
         glue_modes = (False, True) if self.legacy else (False,)
         nfeed = 0
         for glue in glue_modes:
@@ -1428,8 +1430,7 @@ class WireWorld:
                 else:
                     app = rest
                     rec.idp = (FakePGP.parse(pk[0]) or (b'', b'', b'i'))[2]
-            frames, junk = ref_parse(app)
-            kinds = [e[0] for e in rec.tape]
+            frames, _junk = ref_parse(app)
             if rec.legacy:
                 self.gate(rec.tape, VALID, f'real client, conn {i}', rec.channel)
                 done = ('echo', True) in rec.tape
@@ -1573,33 +1574,60 @@ class WireWorld:
 
     # ======================================================================
     def run(self):
+        """cfg rounds=K: K independent scenarios in one run (a fork of the run server costs far more than a cheap scenario);
+        every round starts from a fresh Sim and fresh module state, the chooser just goes on; the event-log digests of
+        the earlier rounds are folded into the last one's."""
         cfg = self.cfg
         mode = cfg['mode']
-        net = None
-        if mode == 'net':
-            net = self.netcfg()
-        elif mode == 'client':
-            net = self.netcfg(short=True)
-        elif mode in ('gpg', 'whole'):
-            net = HoldNet()
-        self.setup(net)
-        if mode == 'whole':
-            # fault-free: whole writes, no delay, no short read, valid handshakes, FIFO delivery is the chooser's value 0
-            self.cfg['prechunk'] = False
-            self.cfg['hs_faults'] = False
-            self.run_client() if self.ch.choose('gen.wholekind', 2) else self.run_net()
-            self.nontrivial = any(msgs_of(view(r.tape)) for r in self.conns)
-        else:
-            getattr(self, 'run_' + mode)()
+        rounds = int(cfg.get('rounds', 1))
+        any_nontrivial = False
+        for rnd in range(rounds):
+            if rnd:
+                self.fold()
+                self.op(f'---- round {rnd} ----')
+            net = None
+            if mode == 'net':
+                net = self.netcfg()
+            elif mode == 'client':
+                net = self.netcfg(short=True)
+            elif mode in ('gpg', 'whole'):
+                net = HoldNet()
+            self.conns, self.flows = [], []
+            self.nontrivial = False
+            self.setup(net)
+            if mode == 'whole':
+                # fault-free: whole writes, no delay, no short read, valid handshakes, FIFO delivery is the chooser's value 0
+                self.cfg['prechunk'] = False
+                self.cfg['hs_faults'] = False
+                self.run_client() if self.ch.choose('gen.wholekind', 2) else self.run_net()
+                self.nontrivial = any(msgs_of(view(r.tape)) for r in self.conns)
+            else:
+                getattr(self, 'run_' + mode)()
+            any_nontrivial = any_nontrivial or self.nontrivial
+            if self.violations:
+                break
+        self.nontrivial = any_nontrivial
         return self.result()
+
+    def fold(self):
+        sim = self.sim
+        self.acc_steps += sim.steps
+        self.acc_vtime += sim.now
+        self.acc_kinds.update(sim.kinds)
+        self.acc_counts.update(sim.counts)
+        self.summary.update(sim.digest().encode())
 
     def result(self):
         sim = self.sim
         sim.log('summary', self.summary.hexdigest()[:16])
+        counts = collections.Counter(self.acc_counts)
+        counts.update(sim.counts)
+        kinds = collections.Counter(self.acc_kinds)
+        kinds.update(sim.kinds)
         faults = dict(self.faults)
-        faults.update({k: v for k, v in sim.counts.items() if k.startswith('net.') and k != 'net.connections'})
-        return dict(violations=self.violations, probes=dict(self.probes), faults=faults, steps=sim.steps + self.feeds,
-                    vtime=round(sim.now, 3), digest=sim.digest(), nontrivial=bool(self.nontrivial), kinds=dict(sim.kinds),
+        faults.update({k: v for k, v in counts.items() if k.startswith('net.') and k != 'net.connections'})
+        return dict(violations=self.violations, probes=dict(self.probes), faults=faults, steps=self.acc_steps + sim.steps + self.feeds,
+                    vtime=round(self.acc_vtime + sim.now, 3), digest=sim.digest(), nontrivial=bool(self.nontrivial), kinds=dict(kinds),
                     feeds=self.feeds, sample=self.ops[:60], ops=self.ops)
 
 
@@ -1827,7 +1855,6 @@ class Flow:
         w = self.world
         if self.exc is not None or self.stage != 'done':
             what = type(self.exc).__name__ if self.exc is not None else 'stuck'
-            mine = [r for r in w.conns if r.sock is not None and r.sock.flow is self]
             if self.hs_failed():
                 pass  # consequence of a handshake that did not complete: reported once, by judge_conns
             else:
